@@ -881,7 +881,20 @@ func (w *aWorld) anchorHonest(st *refmodel.State, party string) {
 			rk = w.recKeys[T.Draw(len(w.recKeys), "honest.sharedkey.pick")]
 		}
 
-		if rk != nil && rk.Commitment(w.hash) != st.UpdateC && rk != p.key {
+		// (not a key that some anchored update - genuine, stale or replayed - already reveals: re-committing to it would
+		// make those earlier-anchored operations authorised after the fact, and the legitimacy labels of this world
+		// are assigned at anchoring time)
+		revealedByUpdate := false
+
+		if rk != nil {
+			for _, o := range w.ops {
+				if o.M.Type == refmodel.Update && o.M.RevealCommit == rk.Commitment(w.hash) {
+					revealedByUpdate = true
+				}
+			}
+		}
+
+		if rk != nil && rk.Commitment(w.hash) != st.UpdateC && rk != p.key && !revealedByUpdate {
 			p.nextUpd = rk
 			w.k.Count("probe:update-key-equals-recovery-key")
 		}
